@@ -131,12 +131,16 @@ func Handler(backendPort int, passthroughHandler http.Handler) http.Handler {
 		defer backendConn.Close()
 		var wg sync.WaitGroup
 		wg.Add(2)
+		// When one direction finishes (its source was closed by the peer, or its destination
+		// is gone), close its destination so that the close is propagated to the other peer.
 		go func() {
 			defer wg.Done()
+			defer backendConn.Close()
 			io.Copy(backendConn, frontendConn)
 		}()
 		go func() {
 			defer wg.Done()
+			defer wsConn.Close()
 			io.Copy(frontendConn, backendConn)
 		}()
 		wg.Wait()
